@@ -249,5 +249,11 @@ func runC05(r *run) {
 			r.sample(map[string]any{"record": encDescribe(c), "line": line})
 		}
 	}
+	// the quoting functions themselves, and the standard readers of their output
+	nq := 1500
+	if r.tier == "thorough" {
+		nq = 30000
+	}
+	quoteProbes(r, g, false, nq)
 	slog.VerifResetGlobals()
 }
